@@ -60,3 +60,32 @@ Print Assumptions C07_ab_board.
 Print Assumptions C07_gen_annotated_board.
 Print Assumptions search_total.
 Print Assumptions search_never_panics.
+
+(* ---- closed statements (Closed.v): the abstract invariant Good is discharged with the concrete
+   reachable-state invariant Reach.Sound (decidable: soundb), nothing else is assumed ---- *)
+From ChessV Require Reach Closed.
+
+Theorem C07_closed_legal_or_none : forall T rook_t bishop_t depth b,
+  1 <= depth -> Reach.Sound T rook_t bishop_t (N.to_nat depth) b ->
+  (exists v m (cands : list (cmove * effect)), search T rook_t bishop_t depth b = SOk (v, m, b)
+       /\ gen_moves T rook_t bishop_t b (turn b) = Ok (map fst cands, b) /\ In m (map fst cands))
+  \/ (search T rook_t bishop_t depth b = SErr NoAvailableMoves /\ gen_moves T rook_t bishop_t b (turn b) = Ok ([], b)).
+Proof. exact Closed.C07_closed. Qed.
+
+Theorem C07_closed_never_panics : forall T rook_t bishop_t depth b,
+  Reach.Sound T rook_t bishop_t (N.to_nat depth) b -> search T rook_t bishop_t depth b <> SPanic.
+Proof. exact Closed.C07_never_panics. Qed.
+
+Theorem C07_closed_ab_total : forall T rook_t bishop_t d b alpha beta mx,
+  Reach.Sound T rook_t bishop_t d b -> exists v, ab T rook_t bishop_t d b alpha beta mx = Ok (v, b).
+Proof. exact Closed.C07_ab_total. Qed.
+
+(* the invariant is executable, inductive along legal play, and holds of the initial position *)
+Check @Reach.soundb_spec.
+Check @Reach.Sound_step.
+Check @Reach.Sound_initial.
+
+Print Assumptions C07_closed_legal_or_none.
+Print Assumptions C07_closed_never_panics.
+Print Assumptions C07_closed_ab_total.
+Print Assumptions Reach.Sound_step.
